@@ -36,7 +36,7 @@ def regenerate(run):
                 % (INTERFACE_PY + " / " + COPT_C, type(e).__name__, e)]
 
 RULE = ("histories of 3-25 operations over real InterfaceClass / Declaration / implementedBy(cls) / "
-        "providedBy(ob) / providedBy(cls) objects with __bases__ reassignments at every kind of node, "
+        "providedBy(ob) / providedBy(cls) / held implementedBy|providedBy(super(T, C)) objects with __bases__ reassignments at every kind of node, "
         "classImplements and garbage collection of leaves; after every operation all pairs are queried, each "
         "specification first being re-asked the isOrExtends question it last answered yes to (before a __bases__ "
         "assignment: one whose answer is about to turn to no). "
@@ -164,6 +164,24 @@ def _history(rng, nops, template):
         sim.users[c] += 1
         return sim.add("clsprov", set(ifaces) | {IMPLOBJ})
 
+    def sup(c):
+        """hold the specification of super(T, C) for a class T of C's MRO"""
+        mro = [k for k in pyc[c].__mro__ if k is not object]
+        back = {v: h for h, v in pyc.items()}
+        t = rng.choice(mro)
+        rest = [back[k] for k in mro[mro.index(t) + 1:]]
+        ops.append({"op": "super", "cls": c, "this": back[t],
+                    "via": rng.choice(["implementedBy", "providedBy"])})
+        for h in set(rest) | {c}:
+            sim.users[h] += 1          # never dropped: the held spec may alias a cached one
+        return sim.add("super", [], set(rest) | {IMPLOBJ})
+
+    def classimpl(c, fs):
+        fs = [f for f in fs if not sim.reaches(f, c)]
+        ops.append({"op": "classimpl", "cls": c, "ifaces": fs})
+        sim.perm[c] |= set(fs)
+        sim.edges[c] = set()
+
     def rebase(x):
         cands = [b for b in sim.live() if b != x and not sim.reaches(b, x)]
         w = []
@@ -191,6 +209,19 @@ def _history(rng, nops, template):
             decl([bottom, c1] if rng.random() < 0.5 else [c1, r])
         if rng.random() < 0.7:
             rebase(rng.choice([top, l, r]))
+        if rng.random() < 0.35:
+            # a held super specification, a declaration change on its class (the cache goes), then a
+            # change behind it
+            cs = sim.live({"cls"})
+            c = rng.choice([x for x in cs if any(k is not object for k in pyc[x].__mro__[1:])] or cs)
+            sup(c)
+            classimpl(c, _pick(rng, sim.live({"iface"}), 1))
+            behind = [h for h in cs if h != c and pyc[h] in pyc[c].__mro__] or [c]
+            a = rng.choice(behind)
+            if rng.random() < 0.5:
+                classimpl(a, [rng.choice(sim.live({"iface"}))])
+            else:
+                rebase(a)
 
     guard = 0
     while len(ops) < nops and guard < 400:
@@ -203,11 +234,12 @@ def _history(rng, nops, template):
             # prefer nodes with deep dependents
             deep = [x for x in live if sim.levels(x) >= 2]
             pool = deep if deep and rng.random() < 0.75 else live
-            kinds_w = {"iface": 6, "decl": 3, "cls": 2, "obj": 1, "clsprov": 1}
+            kinds_w = {"iface": 6, "decl": 3, "cls": 2, "obj": 1, "clsprov": 1, "super": 0}
             w = []
             for x in pool:
                 w += [x] * kinds_w[sim.kind[x]]
-            rebase(rng.choice(w))
+            if w:
+                rebase(rng.choice(w))
         elif p < 0.52:
             low = ifs[-4:] if rng.random() < 0.6 else ifs
             iface(_pick(rng, low + [ROOT], 3))
@@ -219,14 +251,12 @@ def _history(rng, nops, template):
             obj(rng.choice(classes), _pick(rng, ifs, 2))
         elif p < 0.83 and classes:
             clsprov(rng.choice(classes), _pick(rng, ifs, 2))
-        elif p < 0.89 and classes:
-            c = rng.choice(classes)
-            fs = [f for f in _pick(rng, ifs, 2) if not sim.reaches(f, c)]
-            ops.append({"op": "classimpl", "cls": c, "ifaces": fs})
-            sim.perm[c] |= set(fs)
-            sim.edges[c] = set()
+        elif p < 0.87 and classes:
+            classimpl(rng.choice(classes), _pick(rng, ifs, 2))
+        elif p < 0.90 and classes:
+            sup(rng.choice(classes))
         elif live:
-            leaves = [x for x in live if not sim.dependents(x) and sim.users[x] == 0]
+            leaves = [x for x in live if not sim.dependents(x) and sim.users[x] == 0 and sim.kind[x] != "super"]
             if leaves:
                 x = rng.choice(leaves)
                 ops.append({"op": "drop", "node": x})
@@ -241,7 +271,7 @@ def _history(rng, nops, template):
     return {"ops": ops}
 
 
-CREATING = ("iface", "decl", "cls", "obj", "clsprov")
+CREATING = ("iface", "decl", "cls", "obj", "clsprov", "super")
 
 
 def _creator(ops, handle):
@@ -491,6 +521,9 @@ def replay_text(case, obs, mode):
             lines.append("O[%d] = K[%d](); directlyProvides(O[%d], *%s); H[%d] = providedBy(O[%d])" % (n, o["cls"], n, fs, n, n))
         elif t == "clsprov":
             lines.append("directlyProvides(K[%d], *%s); O[%d] = K[%d]; H[%d] = providedBy(K[%d])" % (o["cls"], fs, n, o["cls"], n, o["cls"]))
+        elif t == "super":
+            lines.append("H[%d] = %s" % (n, "providedBy(super(K[%d], K[%d]()))" % (o["this"], o["cls"]) if o.get("via") == "providedBy"
+                                          else "implementedBy(super(K[%d], K[%d]))" % (o["this"], o["cls"])))
         elif t == "classimpl":
             lines.append("classImplements(K[%d], *%s)" % (o["cls"], fs))
         elif t == "setbases":
